@@ -180,6 +180,9 @@ PAIRS = [
      "module m {\n  let dbl = x -> x * 2\n  let p = (from t | select {id, y = dbl a})\n}\nfrom m.p\nsort id\n"),
     ("let c = 4\nlet p = (from t | filter a > c | select {id})\nfrom p\nsort id\n",
      "module outer {\n  let c = 100\n  module inner {\n    let c = 4\n    let p = (from t | filter a > c | select {id})\n  }\n}\nfrom outer.inner.p\nsort id\n"),
+    # a top-level function keeps seeing the top-level constant when the pipeline that calls it moves into a module with a constant of the same name (round-6 seed C06-12)
+    ("let k = 1\nlet f = x -> x + k\nlet g = (from t | select {id, y = f a})\nfrom g\nsort id\n",
+     "let k = 1\nlet f = x -> x + k\nmodule m {\n  let k = 100\n  let g = (from t | select {id, y = f a})\n}\nfrom m.g\nsort id\n"),
     # a pipeline and the pipeline it reads from, moved together
     ("let p1 = (from t | select {id, a})\nlet p2 = (from p1 | filter a > 4)\nfrom p2\nsort id\n",
      "module m {\n  let p1 = (from t | select {id, a})\n  let p2 = (from p1 | filter a > 4)\n}\nfrom m.p2\nsort id\n"),
